@@ -422,6 +422,58 @@ fn with_versions(mut l: Level, mode: usize) -> Level {
     l
 }
 
+// ------------------------------------------------------------------------------------------
+// commands in unusual places: inside an optional member of a group that is one branch of an
+// alternative; wrapped in `fallback` as the later branch beside a valued item.  Help requested
+// after the command name is the command's, whatever else on the line is malformed.
+// ------------------------------------------------------------------------------------------
+pub fn odd_command_cases() -> Vec<(&'static str, Opts, Vec<Vec<&'static str>>)> {
+    let sync = |name: &str| {
+        let mut inner = Opts::new(P::Seq(vec![P::arg(Names::both('j', "jobs-inner"), Ty::U32).opt(), P::Switch(Names::long("dry"))]));
+        inner.cfg.descr = Some(DocSpec::plain("the command itself"));
+        P::cmd(name, inner)
+    };
+    let work = P::Seq(vec![P::Switch(Names::both('v', "verbose")), sync("sync").opt()]);
+    let idle = P::Seq(vec![P::Switch(Names::both('q', "quiet"))]);
+    let a = Opts::new(P::Seq(vec![P::Alt(vec![P::Map(work.bx(), "work".into()), P::Map(idle.bx(), "idle".into())])]));
+    let jobs = P::arg(Names::long("jobs"), Ty::U32);
+    let b = Opts::new(P::Seq(vec![P::Alt(vec![P::Map(jobs.bx(), "j".into()), P::Map(sync("sync").fallback(Val::s("none")).bx(), "c".into())])]));
+    vec![
+        ("command-in-optional-member-of-an-alternative-group", a, vec![vec!["sync", "--help"], vec!["sync", "-h"], vec!["-v", "sync", "--help"], vec!["sync", "--dry", "--help"], vec!["sync", "-j", "x", "--help"], vec!["sync", "--bogus", "--help"]]),
+        ("command-under-fallback-beside-a-valued-alternative", b, vec![vec!["sync", "--help"], vec!["sync", "--help", "--jobs", "many"], vec!["sync", "--jobs", "many", "--help"], vec!["sync", "--help", "--jobs"], vec!["sync", "--dry", "-h"]]),
+    ]
+}
+
+pub fn run_odd_command(prop: &str, which: usize, unit: &Value, only: Option<&[Tok]>, ctx: &mut Ctx) {
+    let (name, o, lines) = odd_command_cases().swap_remove(which);
+    let p = match build_checked(&o) {
+        Ok(p) => p,
+        Err(_) => return,
+    };
+    for l in lines {
+        let argv: Vec<Tok> = l.iter().map(|s| Tok::s(s)).collect();
+        if let Some(x) = only {
+            if x != argv.as_slice() {
+                continue;
+            }
+        }
+        ctx.begin_case(|| json!({"argv": argv}));
+        ctx.s.evaluations += 1;
+        ctx.s.transitions += 1;
+        let r = run(&p, &argv);
+        let ok = matches!(&r, Outcome::Stdout { text, .. } if (text.starts_with("Usage: sync") || text.contains("\nUsage: sync")) && text.contains("--dry") && !text.contains("--quiet"));
+        if ok {
+            ctx.s.nontrivial += 1;
+            ctx.count("help-after-an-oddly-placed-command");
+        } else {
+            let mut sig = BTreeMap::new();
+            sig.insert("family".to_string(), name.to_string());
+            sig.insert("observed".to_string(), r.class().to_string());
+            ctx.violation(Violation { property: prop.into(), rule: "help-after-the-name-describes-the-subcommand".into(), sig, unit: unit.clone(), case: json!({"argv": argv, "odd": which}), expected: "stdout: the help of `sync` (usage line starts with the command, lists --dry, not --quiet)".into(), observed: r.brief(), size: argv.len() * 1000 });
+        }
+    }
+}
+
 impl Check for C10 {
     fn id(&self) -> &'static str {
         "C10"
@@ -471,13 +523,26 @@ impl Check for C10 {
             let alpha = crate::checks::c19::group_alphabet(&o);
             out.push(Unit { level: None, opts: Some(o), len: tier.pick(3, 4), family: f, alpha, custom_help: false, custom_sub_only: false });
         }
-        out.into_iter().map(|u| serde_json::to_value(u).unwrap()).collect()
+        let mut out: Vec<Value> = out.into_iter().map(|u| serde_json::to_value(u).unwrap()).collect();
+        for k in 0..odd_command_cases().len() {
+            out.push(json!({"odd": k}));
+        }
+        out
     }
     fn run_unit(&self, unit: &Value, ctx: &mut Ctx) {
+        if let Some(k) = unit.get("odd").and_then(|k| k.as_u64()) {
+            run_odd_command("C10", k as usize, unit, None, ctx);
+            return;
+        }
         let u: Unit = serde_json::from_value(unit.clone()).unwrap();
         run_u(&u, unit, None, ctx);
     }
     fn replay(&self, unit: &Value, case: &Value, ctx: &mut Ctx) {
+        if let Some(k) = unit.get("odd").and_then(|k| k.as_u64()) {
+            let argv: Vec<Tok> = serde_json::from_value(case["argv"].clone()).unwrap_or_default();
+            run_odd_command("C10", k as usize, unit, Some(&argv), ctx);
+            return;
+        }
         let u: Unit = serde_json::from_value(unit.clone()).unwrap();
         let base: Vec<Tok> = serde_json::from_value(case["base"].clone()).unwrap_or_default();
         let pos = case["pos"].as_u64().unwrap_or(0) as usize;
@@ -485,7 +550,7 @@ impl Check for C10 {
         run_u(&u, unit, Some((&base, pos, &token)), ctx);
     }
     fn rule(&self) -> String {
-        "definitions = conventional levels (<=2 named items x all tails incl. command tails of depth 3, version configured nowhere / at the top / everywhere), command trees of C08 (every fifth with custom - non-ASCII - help names on all levels, every seventh on the sub-commands only), the general shape family and adjacent group shapes; base vectors = every vector of the token tree (valid, invalid, incomplete); the help token (--help, -h, custom names) and the version token (--version, -V) are inserted as an item of their own at EVERY position left of the first `--`; oracle: outcome is stdout and equals, byte for byte, the help/version text of the level owning that position (reference level finder: deepest command whose name was the first unclaimed item), version is an ordinary unknown flag where not configured; on levels with a version and no commands a version item added at any position next to the help item still gives the help; for general shapes the level is judged while no command name precedes the position; for adjacent commands a position directly behind the command name and its own items belongs to the command; evaluation = one run; non-trivial = judged insertion".into()
+        "definitions = conventional levels (<=2 named items x all tails incl. command tails of depth 3, version configured nowhere / at the top / everywhere), command trees of C08 (every fifth with custom - non-ASCII - help names on all levels, every seventh on the sub-commands only), the general shape family and adjacent group shapes; base vectors = every vector of the token tree (valid, invalid, incomplete); the help token (--help, -h, custom names) and the version token (--version, -V) are inserted as an item of their own at EVERY position left of the first `--`; oracle: outcome is stdout and equals, byte for byte, the help/version text of the level owning that position (reference level finder: deepest command whose name was the first unclaimed item), version is an ordinary unknown flag where not configured; on levels with a version and no commands a version item added at any position next to the help item still gives the help; for general shapes the level is judged while no command name precedes the position; for adjacent commands a position directly behind the command name and its own items belongs to the command; plus commands in unusual places (inside an optional member of a group that is one branch of an alternative; under fallback beside a valued alternative): help after the name, with malformed items around it, is the command's; evaluation = one run; non-trivial = judged insertion".into()
     }
     fn bounds(&self, tier: Tier) -> Value {
         json!({"base_vector_length": tier.pick("3 (1 item), 2 (2 items, trees, shapes), 3 (groups)", "4 / 3 / 4"), "insert_positions": "all, left of `--`"})
